@@ -52,10 +52,9 @@ theorem known_roundtrip_findings :
     commands.filterMap (fun c => (knownRtKind c).map (fun k => (k, c.name))) =
       [(.fixedEntrySize, "FindResponse"), (.fixedEntrySize, "FindUniqueResponse"),
        (.fieldNotMarshalled, "NegotiateRequest"), (.fieldNotMarshalled, "NegotiateResponse"),
-       (.fieldNotMarshalled, "OpenAndxResponse"), (.fieldNotUnmarshalled, "QueryInformation2Response"),
-       (.conditionalField, "ReadRawRequest"), (.readsWholeBuffer, "TreeConnectRequest"),
-       (.conditionalField, "WriteAndCloseRequest"), (.conditionalField, "WriteAndxRequest"),
-       (.conditionalField, "WriteRawRequest")] := by decide +kernel
+       (.fieldNotUnmarshalled, "QueryInformation2Response"), (.conditionalField, "ReadRawRequest"),
+       (.readsWholeBuffer, "TreeConnectRequest"), (.conditionalField, "WriteAndCloseRequest"),
+       (.conditionalField, "WriteAndxRequest"), (.conditionalField, "WriteRawRequest")] := by decide +kernel
 
 /-- **every buffer is sized by the field documented to size it**: the (command, buffer, length) and
     (command, list, count) relations the regenerated unmarshal programs rely on are exactly the pinned
@@ -209,9 +208,9 @@ theorem smb_reencode (c : Cmd) (hmem : c ∈ commands) (hm : Mirror c = true) (e
     WriteMpxRequest (and WriteAndxRequest): the last buffer read not followed by an advance of `offset`. -/
 theorem loop_mirror_commands :
     (commands.filter (fun c => MirrorLoops c && !Mirror c)).map (·.name) =
-      ["LockingAndxRequest", "OpenAndxRequest", "QueryInformationResponse", "SessionSetupAndxRequest",
-       "SessionSetupAndxResponse", "TransactionRequest", "WriteAndxRequest", "WriteMpxRequest",
-       "WriteRawRequest"] := by decide +kernel
+      ["LockingAndxRequest", "OpenAndxRequest", "OpenAndxResponse", "QueryInformationResponse",
+       "SessionSetupAndxRequest", "SessionSetupAndxResponse", "TransactionRequest", "WriteAndxRequest",
+       "WriteMpxRequest", "WriteRawRequest"] := by decide +kernel
 
 /-- `MirrorLoops` extends `Mirror`: each of the 90 `Mirror` commands satisfies it -/
 theorem mirror_loops_extends : commands.all (fun c => !Mirror c || MirrorLoops c) = true := by decide +kernel
@@ -227,9 +226,8 @@ theorem mirror_loops_extends : commands.all (fun c => !Mirror c || MirrorLoops c
 theorem non_mirror_loops_commands :
     (commands.filter (fun c => !MirrorLoops c)).map (·.name) =
       ["FindCloseResponse", "FindResponse", "FindUniqueResponse", "LockAndReadResponse", "NegotiateRequest",
-       "NegotiateResponse", "OpenAndxResponse", "QueryInformation2Response", "ReadRawRequest", "ReadResponse",
-       "RenameRequest", "TreeConnectRequest", "WriteAndCloseRequest", "WriteAndUnlockRequest",
-       "WriteRequest"] := by decide +kernel
+       "NegotiateResponse", "QueryInformation2Response", "ReadRawRequest", "ReadResponse", "RenameRequest",
+       "TreeConnectRequest", "WriteAndCloseRequest", "WriteAndUnlockRequest", "WriteRequest"] := by decide +kernel
 
 /-- **C04, generic round trip over the loop fragment.**  As `mirror_roundtrip`, for every command whose
     regenerated programs satisfy `MirrorLoops`: the only statements outside the straight-line fragment are
@@ -313,7 +311,7 @@ theorem slot_locality (C : Codecs) (c : Cmd) (f : String) (lo hi : Nat) (h : slo
 
 /-- the theorem applies to 206 (command, field) pairs of this tree -/
 theorem slot_ranges_defined :
-    (commands.flatMap (fun c => (c.fields.map (·.1)).filterMap (fun f => slotRange c f))).length = 206 := by
+    (commands.flatMap (fun c => (c.fields.map (·.1)).filterMap (fun f => slotRange c f))).length = 205 := by
   decide +kernel
 
 /-! ### non-vacuity: a concrete command and concrete field values satisfy every hypothesis -/
